@@ -62,6 +62,9 @@ func authnScenarios(r *rand.Rand, n int) []*sso.Scenario {
 						case 2:
 							s.Want = []string{"true", "1"}[len(out)%2]
 						}
+						if len(out)%4 == 1 && len(s.SP.Certs) > 0 {
+							s.SP.Certs[0].Use = ""
+						}
 						s.Mut = fmt.Sprintf("grid/%s/sign=%v/enc=%s/req=%d", tr, sign != "", enc, req)
 					})
 				}
@@ -113,6 +116,9 @@ func authnScenarios(r *rand.Rand, n int) []*sso.Scenario {
 				s.Want = pick(r, []string{"", "false", "0"})
 			}
 			s.SP = sso.BaseSP(flag, withCert)
+			if withCert && r.Intn(3) == 0 {
+				s.SP.Certs[0].Use = "" // a KeyDescriptor without a use attribute serves both signing and encryption
+			}
 			if s.Sign != "" && s.Transport == "post" && s.KeyInfo && r.Intn(3) == 0 {
 				s.Mut = "wrap-cert" // the KeyInfo certificate text wrapped into lines (the registered one is not)
 			}
@@ -315,6 +321,6 @@ func Run(dir, tier string, seed int64) error {
 			id++
 		}
 	}
-	rule := "AuthnRequest: the full grid binding {Redirect, POST} x signing {none, rsa-sha1, rsa-sha256} x percent-encoding style {upper-case hex with +, lower-case hex, %20 for space, both, every byte escaped} x signing required by {nobody, SP metadata (true / 1), IdP (true / 1)}, plus random combinations of 8 serialisation styles (prefixes, default namespace, XML declaration, indentation and comments, single quotes), optional parts (Destination, ProtocolBinding, consumer URL / index, NameIDPolicy, Conditions with none / one / both instants), 0-9 fractional digits, RelayState alphabets, SAMLEncoding present / absent, KeyInfo present / absent, signature after Issuer or last, certificate text wrapped in the request or in the registered metadata. LogoutRequest: 8 styles x optional attributes and SessionIndex x {POST, POST signed, Redirect, Redirect with SAMLEncoding, Redirect signed} x encoding styles. AttributeQuery: 3 SOAP envelope styles x optional Destination / requested attributes x unsigned / enveloped-signed. Every one must be accepted (303 to login with exactly one persisted request; status Success); the AuthnRequests also run through the Coq SSO model. distinct = (stream / kind, style, encoding)."
+	rule := "AuthnRequest: the full grid binding {Redirect, POST} x signing {none, rsa-sha1, rsa-sha256} x percent-encoding style {upper-case hex with +, lower-case hex, %20 for space, both, every byte escaped} x signing required by {nobody, SP metadata (true / 1), IdP (true / 1)}, plus random combinations of 8 serialisation styles (prefixes, default namespace, XML declaration, indentation and comments, single quotes), optional parts (Destination, ProtocolBinding, consumer URL / index, NameIDPolicy, Conditions with none / one / both instants), 0-9 fractional digits, RelayState alphabets, SAMLEncoding present / absent, KeyInfo present / absent, signature after Issuer or last, certificate text wrapped in the request or in the registered metadata, KeyDescriptor with use=\"signing\" or without a use attribute. LogoutRequest: 8 styles x optional attributes and SessionIndex x {POST, POST signed, Redirect, Redirect with SAMLEncoding, Redirect signed} x encoding styles. AttributeQuery: 3 SOAP envelope styles x optional Destination / requested attributes x unsigned / enveloped-signed. Every one must be accepted (303 to login with exactly one persisted request; status Success); the AuthnRequests also run through the Coq SSO model. distinct = (stream / kind, style, encoding)."
 	return sso.RunWith("C07", dir, tier, seed, scenarios, rule, extra, oracle)
 }
